@@ -165,6 +165,16 @@ def _phi_size(v, depth=0):
 
 
 def mkphi(cond, a, b):
+    if a is b:
+        return a
+    if isinstance(a, DictV) and isinstance(b, DictV) and set(a.items) == set(b.items) and a.fallback == b.fallback and a.ident == b.ident:
+        # structural merge: keep one dict, gate the entries that differ
+        out = DictV({}, a.fallback, a.ident)
+        for k in a.items:
+            out.items[k] = mkphi(cond, a.items[k], b.items[k])
+        return out
+    if isinstance(a, Seq) and isinstance(b, Seq) and a.kind == b.kind and len(a.items) == len(b.items) and a.ident == b.ident:
+        return Seq(a.kind, [mkphi(cond, x, y) for x, y in zip(a.items, b.items)], a.ident)
     if key(a) == key(b):
         return a
     return Phi(cond, a, b)
@@ -543,6 +553,8 @@ class Evaluator:
             if id(v) not in self.gowner:
                 self.gowner[id(v)] = owner
             self.gowned.add(id(v))
+            if not (v.ident or "").startswith("G:"):
+                v.ident = owner
             if isinstance(v, Seq):
                 for i, x in enumerate(v.items):
                     self._mark_gowned(x, "%s[%d]" % (owner, i), depth + 1)
@@ -1036,6 +1048,11 @@ class Evaluator:
         return self.getattr(base, n.attr, st)
 
     def getattr(self, base, attr, st):
+        if isinstance(base, SuperV):
+            for k in self.P.mro(base.cls)[1:]:
+                if attr in k.methods:
+                    return Closure(k.methods[attr], None, selfv=base.selfv)
+            return Opaque("super().%s" % attr)
         if isinstance(base, ModRef):
             return self.resolve_global(base.name, attr, st)
         if isinstance(base, Ext):
@@ -1073,7 +1090,7 @@ class Evaluator:
             a = self.getattr(base.a, attr, st)
             b = self.getattr(base.b, attr, st)
             return mkphi(base.cond, a, b)
-        if isinstance(base, (Seq, DictV, Const, Template, StrSym)):
+        if isinstance(base, (Seq, DictV, Const, Template, StrSym, OverrideV)):
             return Bound(base, attr)
         if isinstance(base, Num):
             return Opaque("%s.%s" % (key(base), attr))
@@ -1144,6 +1161,13 @@ class Evaluator:
                     fc = self.field_cls.get(("key", kk))
                     return Opaque("%s[%r]" % (base.fallback, kk), cls=fc)
                 return Opaque("<KeyError %r in %s>" % (kk, base.ident or "dict"), kind="keyerror")
+            elif base.items and len(base.items) <= 40:
+                # unknown key: any of the values
+                vals = list(base.items.items())
+                out = Opaque("%s[%s]" % (base.ident or "dict", key(idx)))
+                for k_, v_ in reversed(vals):
+                    out = Phi(Cond(("cmp", "eq", idx, Const(k_))), v_, out)
+                return out
         if isinstance(base, Opaque):
             if isinstance(idx, Const):
                 t = "%s[%r]" % (base.text, idx.v)
@@ -1411,6 +1435,15 @@ class Evaluator:
         return obj
 
     def call_ext(self, name, args, kwargs, st, node):
+        if name == "super" and not args:
+            f = st.env.func
+            e = st.env
+            while f is not None and f.cls is None and f.parent is not None:
+                f = f.parent
+            if f is not None and f.cls is not None and f.params:
+                sv = st.env.lookup(f.params[0])
+                if sv is not None:
+                    return SuperV(f.cls, sv)
         if any(isinstance(a, Phi) for a in args) and sum(_phi_size(a) for a in args) <= 32 and name.split(".")[-1] in (MATH_UNARY | PURE_BUILTINS):
             return self._dist(lambda xs: self.call_ext(name, xs, kwargs, st, node), list(args))
         short = name.split(".")[-1]
@@ -1581,6 +1614,11 @@ class Evaluator:
             if name == "copy":
                 return Opaque("%s.copy()" % recv.text, cls=recv.cls, kind="copy")
             return Opaque("%s.%s(%s)" % (recv.text, name, ", ".join(key(a) for a in args)), cls=recv.cls)
+        if isinstance(recv, (Seq, DictV)) and name in ("append", "extend", "insert", "pop", "remove", "clear", "update", "setdefault", "sort", "reverse", "popitem", "add"):
+            st.events.append(("mutate", recv.ident or "", name, recv, node))
+        if isinstance(recv, OverrideV):
+            st.events.append(("call-maybe", recv, name, list(args), node))
+            return Opaque("%s.%s(%s)" % (key(recv), name, ", ".join(key(a) for a in args)))
         if isinstance(recv, Seq):
             if name == "append" and len(args) == 1:
                 recv.items.append(args[0])
@@ -1767,6 +1805,10 @@ class Evaluator:
             st.events.append(("setattr", key(base), attr, v, node))
 
     def setitem(self, base, idx, v, st, node=None):
+        if isinstance(base, Phi):
+            self.setitem(base.a, idx, v, st, node)
+            self.setitem(base.b, idx, v, st, node)
+            return
         ic = num_const(idx)
         if isinstance(base, Seq) and ic is not None and -len(base.items) <= int(ic) < len(base.items):
             base.items[int(ic)] = v
@@ -1776,6 +1818,11 @@ class Evaluator:
             kk = idx.v if isinstance(idx, Const) else (int(ic) if ic.denominator == 1 else float(ic))
             base.items[kk] = v
             st.events.append(("setitem", base.ident or key(base), repr(kk), v, node))
+            if (base.ident or "").startswith("G:"):
+                st.events.append(("mutate", base.ident, "__setitem__", base, node))
+            return
+        if isinstance(base, OverrideV):
+            st.events.append(("setitem-maybe", base, key(idx), v, node))
             return
         if isinstance(base, Opaque):
             st.heap = _heapcopy(st.heap)
@@ -1819,6 +1866,49 @@ class Evaluator:
 
     def on_branch(self, s, c, taken, st):
         st.events.append(("branch", c, taken, s))
+        t = c.tree if isinstance(c, Cond) else None
+        if t is not None and t[0] == "cmp" and t[1] in ("is", "isnot"):
+            x, y = t[2], t[3]
+            same_branch = taken if t[1] == "is" else not taken
+            for a, b in ((x, y), (y, x)):
+                if isinstance(a, OverrideV) and (a.old is b or key(a.old) == key(b)):
+                    # in the branch where `a is not <default>` the value is the caller's; where it is, the default
+                    new = a.old if same_branch else Opaque("%s[%r]" % (key(a.o), a.k), kind="obj")
+                    self._replace_value(st, a, new)
+
+    def _replace_value(self, st, old, new):
+        seen = set()
+
+        def walk(v):
+            if id(v) in seen:
+                return
+            seen.add(id(v))
+            if isinstance(v, DictV):
+                for k_, x in list(v.items.items()):
+                    if x is old or (isinstance(x, OverrideV) and isinstance(old, OverrideV) and x.k == old.k and key(x) == key(old)):
+                        v.items[k_] = new
+                    else:
+                        walk(x)
+            elif isinstance(v, Seq):
+                for i, x in enumerate(v.items):
+                    if x is old:
+                        v.items[i] = new
+                    else:
+                        walk(x)
+
+        e = st.env
+        while e is not None:
+            for k_, x in list(e.vars.items()):
+                if x is old:
+                    e.vars[k_] = new
+                else:
+                    walk(x)
+            e = e.parent
+        for k_, x in list(dict.items(st.heap)):
+            if x is old:
+                st.heap[k_] = new
+            else:
+                walk(x)
 
     def merge(self, st, c, s1, s2):
         # env (only the innermost frame and its parents that were forked)
@@ -2059,6 +2149,12 @@ def _as_load(t):
 # ---------------------------------------------------------------------------
 # auxiliary values
 # ---------------------------------------------------------------------------
+
+class SuperV:
+    def __init__(self, cls, selfv):
+        self.cls = cls
+        self.selfv = selfv
+
 
 class Template:
     """String with holes: parts = [("lit", text) | ("hole", value, spec)]."""
